@@ -191,6 +191,27 @@ template<> struct numeric_limits<int>
 };
 
 using ::fabs;
+using ::strtol;
+using ::strtoul;
+using ::strtoll;
+using ::strtoull;
+using ::strtod;
+using ::atoi;
+using ::atol;
+using ::abs;
+using ::labs;
+using ::strlen;
+using ::strcmp;
+using ::memcpy;
+using ::memset;
+using ::isdigit;
+using ::isalpha;
+using ::isalnum;
+using ::tolower;
+using ::toupper;
+using ::floor;
+using ::ceil;
+using ::sqrt;
 using ::isspace;
 using ::log10;
 using ::pow;
